@@ -799,7 +799,7 @@ def run_check(ctx, prop, props_module, level):
         plan = []
         for exe, name, share in ((exe_dbg, "assert+asan", 0.6), (exe_rel, "shipped(NDEBUG)+asan", 0.4)):
             cases = []
-            counts = [("tiny", 1500 if quick else 12000), ("small", 1100 if quick else 8000),
+            counts = [("tiny", 1200 if quick else 12000), ("small", 900 if quick else 8000),
                       ("mid", 400 if quick else 2500), ("tailbuf", 160 if quick else 900),
                       ("burst", 140 if quick else 1500)]
             for cls, n in counts:
@@ -843,6 +843,9 @@ def run_check(ctx, prop, props_module, level):
                      "domain: no NUL, every line (with its newline) and the final fragment <= 131072 bytes, no "
                      "return-code marker inside a stdout line; host names shorter than LINEBUFSIZE without NUL",
                      "one handler thread per host (as in dsh.c); interleaving between hosts is by whole stdio call",
+                     "glibc stdio behaves like the buffered writer of Relay/Stdio.lean (any capacity; full buffering "
+                     "for a pipe/file, line buffering for a tty; written when full, on fflush, at exit): then the "
+                     "consumer receives the stdio calls concatenated in call order (C06.consumer_sees_calls)",
                      "the transport's forked child never touches the stdio buffers it inherited from pdsh (it leaves "
                      "with _exit when exec fails): a target whose command cannot be started contributes no record "
                      "(C05.unstarted_host_writes_nothing); checked by real runs in which execvp fails (ENOENT/EACCES) "
